@@ -273,6 +273,9 @@ func (t *Thread) processIncomingInterest(packet *defn.Pkt) {
 					packet.Raw = csWire
 					packet.Name = csData.NameV
 					strategy.AfterContentStoreHit(packet, pitEntry, incomingFace.FaceID())
+					// The in-record of this downstream has been consumed; the entry
+					// expires with its remaining records (at once if there are none)
+					table.UpdateExpirationTimer(pitEntry)
 					return
 				} else if err != nil {
 					core.LogError(t, "Error copying CS entry: ", err)
